@@ -976,6 +976,21 @@ def c17(ctx):
                 if npairs % 3 == 0:      # ... the documents arriving through a codec (names by reference), key cache on
                     cases.append(case("C17", "goreuse", "go", sub=dict(component="unfolder", history=[a], T=b["T"], V=b["V"], via=("json", "ubjson", "cborl")[npairs % 9 // 3],
                                                                         keycache=1 + npairs % 2), origin="unfolder history via codec, key cache"))
+    # documents of different shape read into ONE input buffer: the member names of the probe land on the bytes of the previous document's names
+    def sv(x):
+        return dict(k="str", ty="string", v=list(x))
+    NT = dict(k="struct", f=[dict(name="Name", tname="", opts=["omitempty"], t=dict(k="string")), dict(name="Nick", tname="", opts=["omitempty"], t=dict(k="string")),
+                             dict(name="Id", tname="", opts=["omitempty"], t=dict(k="string")), dict(name="No", tname="", opts=["omitempty"], t=dict(k="string"))])
+    vals = [dict(k="struct", f=[sv(b"alice"), sv(b""), sv(b""), sv(b"")]), dict(k="struct", f=[sv(b""), sv(b"bobby"), sv(b""), sv(b"")]),
+            dict(k="struct", f=[sv(b""), sv(b""), sv(b"x1"), sv(b"")]), dict(k="struct", f=[sv(b""), sv(b""), sv(b""), sv(b"y2")]),
+            dict(k="struct", f=[sv(b"carol"), sv(b""), sv(b"z3"), sv(b"")]), dict(k="struct", f=[sv(b""), sv(b"dave"), sv(b""), sv(b"w4")])]
+    WT = dict(k="struct", f=[dict(name="In", tname="", opts=[], t=NT), dict(name="Q", tname="", opts=[], t=dict(k="int"))])
+    for a in vals:
+        for b in vals:
+            for via in ("json", "ubjson", "cborl"):
+                cases.append(case("C17", "goreuse", "go", sub=dict(component="unfolder", history=[dict(T=NT, V=a)], T=NT, V=b, via=via, sharedbuf=True), origin="unfolder history, one input buffer"))
+            wa, wb = dict(k="struct", f=[a, dict(k="int", ty="int", v=streams.canon(1))]), dict(k="struct", f=[b, dict(k="int", ty="int", v=streams.canon(2))])
+            cases.append(case("C17", "goreuse", "go", sub=dict(component="unfolder", history=[dict(T=WT, V=wa)], T=WT, V=wb, via="cborl", sharedbuf=True), origin="unfolder history, one input buffer"))
     # a type with a user-defined processing unfolder whose cell is the target itself, met directly and below other types
     US = dict(k="named", id="USelf")
 
